@@ -76,6 +76,9 @@ def _job(job):
         codes[-1] = None
     seed = int(rng.integers(0, 1000))
     bs = 1 if E.max_bs else int(rng.integers(1, 3))
+    # the same candidates under every encoding: None, an index subset, or feature rows
+    y_nan = np.array([NAN if c is None else float(c) for c in codes])
+    cmode, cand = R.gen_candidates(rng, E, X, y_nan) if rng.random() < 0.6 else ("none", None)
     outs, problems = [], []
     for enc in ENC:
         name, classes, ml, dt = enc
@@ -91,7 +94,8 @@ def _job(job):
                     for e in v:
                         set_ml(e, ml, classes)
             np.random.seed(0)
-            idx, ut = qs.query(X=X.copy(), y=y.copy(), batch_size=bs, return_utilities=True, **kw)
+            idx, ut = qs.query(X=X.copy(), y=y.copy(), candidates=None if cand is None else np.array(cand).copy(),
+                               batch_size=bs, return_utilities=True, **kw)
             outs.append((name, np.asarray(idx).tolist(), np.asarray(ut, dtype=float)))
         except Exception as e:
             outs.append((name, "exc:" + err_class(e), repr(e)[:200]))
@@ -103,7 +107,8 @@ def _job(job):
             continue
         if o[1] != base[1] or not np.allclose(o[2], base[2], rtol=1e-9, atol=1e-12, equal_nan=True):
             problems.append(("encoding_dependent", f"{base[0]} -> {base[1]}; {o[0]} -> {o[1]}"))
-    return {"name": E.name, "codes": codes, "X": X.tolist(), "seed": seed, "bs": bs, "problems": problems}
+    return {"name": E.name, "codes": codes, "X": X.tolist(), "seed": seed, "bs": bs, "problems": problems,
+            "candidates_mode": cmode, "candidates": None if cand is None else np.asarray(cand).tolist()}
 
 
 def run(ctx):
@@ -117,33 +122,58 @@ def run(ctx):
     ctx.coq_props()
     # ---- static site table ----
     sites = TL.scan()
+    uses = TL.scan_uses()
     rows = []
     for s in sites:
         note = f"{s[0]}:{s[2]} {s[1]}: {s[3]}(missing_label={s[4]})".replace("(*", "( *").replace("*)", "* )")
         rows.append(f"({natlit(0)}, {blit(s[5])})  (* {note} *)")
+    for u in uses:
+        note = f"{u[0]}:{u[2]} {u[1]}: use of {u[4]} in {u[3]}".replace("(*", "( *").replace("*)", "* )")
+        rows.append(f"({natlit(1)}, {blit(u[5])})  (* {note} *)")
     with open(os.path.join(ctx.build, "C09_sites.v"), "w") as f:
         f.write("From Coq Require Import List Bool.\nFrom V Require Import Model.RngProv.\nImport ListNotations.\n"
                 "Definition label_sites : list site := [\n  " + ";\n  ".join(rows) + "\n].\n"
                 "Theorem C09_sites_use_sentinel : sites_ok label_sites = true.\nProof. vm_compute. reflexivity. Qed.\nPrint Assumptions C09_sites_use_sentinel.\n")
     rc, so, se = ctx.coqc(os.path.join(ctx.build, "C09_sites.v"))
     ok = rc == 0 and "Closed under the global context" in so
-    ctx.obligations.append({"name": f"C09_sites_use_sentinel ({len(sites)} call sites regenerated from /repo)", "discharged": ok,
+    ctx.obligations.append({"name": f"C09_sites_use_sentinel ({len(sites)} label-predicate call sites + {len(uses)} uses of a sentinel expression regenerated from /repo)", "discharged": ok,
                             "assumptions": "Closed under the global context" if ok else (se or so)[-300:]})
+    for u in [u for u in uses if not u[5]][:10]:
+        ctx.violation(u[0], "sentinel_compared_by_hand_static", f"{u[0]}:{u[2]} in {u[1]}: {u[4]} used in {u[3]}", {"site": list(u[:5])}, found_input=False,
+                      what=f"obligation C09_sites_use_sentinel no longer checks: {u[0]}:{u[2]} ({u[1]}) uses the sentinel {u[4]} outside the label helpers ({u[3]})")
     badsites = [s for s in sites if not s[5]]
     for s in badsites[:10]:
         ctx.violation(s[0], "sentinel_bypass_static", f"{s[0]}:{s[2]} in {s[1]}: {s[3]}(missing_label={s[4]})", {"site": list(s[:5])}, found_input=False,
                       what=f"obligation C09_sites_use_sentinel no longer checks: {s[0]}:{s[2]} {s[3]}(missing_label={s[4]})")
-    if not ok and not badsites:
+    if not ok and not badsites and all(u[5] for u in uses):
         ctx.broken("label_site_table", "the regenerated label-predicate site table theorem does not check", (se or so)[-1500:])
     # ---- dynamic: pool strategies ----
     entries = PL._entries()
+    # a broken static obligation starts a targeted search for a concrete failing input in the implicated modules
+    implicated = {x[0] for x in badsites} | {u[0] for u in uses if not u[5]}
+    if implicated:
+        import inspect
+        esc = []
+        for ei, E in enumerate(entries):
+            try:
+                src = os.path.relpath(inspect.getsourcefile(type(E.make([0, 1], 0))), "/repo")
+            except Exception:
+                continue
+            if E.task == "clf" and src in implicated:
+                esc += [(ei, (ctx.seed, ei, h, 9090)) for h in range(60)]
+        ctx.hist["escalated_jobs"] += len(esc)
+        for out in pmap(_job, esc, chunksize=2):
+            ctx.count(out["name"] + "[escalated]")
+            for kind, msg in out["problems"]:
+                ctx.violation(out["name"], kind, msg, {k: out[k] for k in ("name", "codes", "X", "seed", "bs", "candidates_mode", "candidates")},
+                              what=f"{out['name']}: {kind.replace('_', ' ')} ({msg}) [found by the search started by the broken site table]")
     jobs = [(ei, (ctx.seed, ei, h, 909)) for ei, E in enumerate(entries) if E.task == "clf" for h in range((1 if E.slow else 2) if ctx.is_quick else (4 if E.slow else 15))]
     for out in pmap(_job, jobs, chunksize=2):
         ctx.count(out["name"])
         if len({c for c in out["codes"] if c is not None}) >= 2:
             ctx.nontriv((out["name"], repr(out["codes"]), repr(out["X"])))
         for kind, msg in out["problems"]:
-            ctx.violation(out["name"], kind, msg, {k: out[k] for k in ("name", "codes", "X", "seed", "bs")}, what=f"{out['name']}: {kind.replace('_', ' ')} ({msg})")
+            ctx.violation(out["name"], kind, msg, {k: out[k] for k in ("name", "codes", "X", "seed", "bs", "candidates_mode", "candidates")}, what=f"{out['name']}: {kind.replace('_', ' ')} ({msg})")
     classifiers_and_streams(ctx)
     ctx.sample({"encodings": [e[0] for e in ENC]})
     ctx.extra["exhaustive"] = False
